@@ -104,11 +104,20 @@ pub fn run(ctx: &mut Ctx) {
                 let via_cte = format!("WITH v{} AS ({}) {}", collist, d.sql, outer);
                 // the CTE must be tried on a database where the view name does not shadow it: use name w
                 let via_cte = via_cte.replace("WITH v", "WITH w").replace("FROM v", "FROM w").replace(" v.", " w.").replace("(v.", "(w.").replace("SELECT v.", "SELECT w.");
+                // a WITH clause of the referencing statement that reuses the name of a base table
+                // must not reach into the view's body
+                let shadow = *rng.pick(&["t1", "t2"]);
+                let other = if shadow == "t1" { "t2" } else { "t1" };
+                let via_view_shadowed = format!("WITH {} AS (SELECT id + 1000 AS id, a + 7 AS a, b, 'cte' AS c FROM {}) {}", shadow, other, outer);
                 ctx.eval();
                 let (ov, oi, oc) = (s.exec(&via_view), s.exec(&inlined), s.exec(&via_cte));
+                // (only when the referencing statement itself does not name a base table: there
+                // the CTE legitimately takes precedence)
+                let outer_names_base = outer.contains("t1") || outer.contains("t2");
+                let os = if outer_names_base { oi.clone() } else { s.exec(&via_view_shadowed) };
                 let shape = format!("{}|{}|collist={}|round{}", d.kind, okind, d.column_list, round.min(1));
                 let hist = || s.history.iter().filter(|e| !e.sql.starts_with("SELECT") && !e.sql.starts_with("WITH")).map(|e| e.sql.clone()).collect::<Vec<_>>();
-                for (name, o) in [("view", &ov), ("cte", &oc), ("derived", &oi)] {
+                for (name, o) in [("view", &ov), ("cte", &oc), ("derived", &oi), ("view-under-shadowing-cte", &os)] {
                     if let Outcome::Panic(p) = o {
                         ctx.violation(case, format!("panic:{}:{}", name, crate::core::util::panic_class(p)), json!({"sql": via_view, "def": d.sql, "history": hist()}));
                     }
@@ -121,7 +130,7 @@ pub fn run(ctx: &mut Ctx) {
                     }
                     continue;
                 };
-                for (name, o, sql) in [("view", &ov, &via_view), ("cte", &oc, &via_cte)] {
+                for (name, o, sql) in [("view", &ov, &via_view), ("cte", &oc, &via_cte), ("view-under-shadowing-cte", &os, &via_view_shadowed)] {
                     match o {
                         Outcome::Rows(r) => {
                             if !multiset_eq(r, ri, 1e-9) {
